@@ -22,6 +22,7 @@ META = {
 }
 META["explanation"] += ' R04.1 counts acquisitions made in private helpers of the wrapper as its own (virtual inlining); R01.1 (every mutable borrow of the value reaches the version bump in the same function) is evaluated here too: a value written in one critical section and the version bumped in another is visible with the old version.'
 META["explanation"] += ' R04.5 no acquisition of the state lock while a kept guard of it is alive (writer-fair RwLocks: a recursive read lock deadlocks with a queued writer); metadata-lock acquisitions are nested by design and not counted; for the async flavour creating a lock future is not an acquisition, polling / awaiting it is.'
+META["explanation"] += ' Shared with C01: R01.13 and R01.14 (a conditional setter deciding on a stale derivation of the value returns a result no sequential order explains).'
 
 ACQ = r"^(std::sync::RwLock|tokio::sync::RwLock)::<.*>::(write|read|try_write|try_read|blocking_write|blocking_read|write_owned|read_owned)$"
 EXCL = r"::(write|try_write|blocking_write|write_owned)$"
@@ -45,6 +46,8 @@ def run(ctx):
         init = c01.r01_5(ctx, nset, closes[0], closes[0][2])
         c01.r01_6(ctx, init)
         c01.r01_7(ctx, init)
+        c01.r01_13(ctx, nset)
+        c01.r01_14(ctx)   # a conditional setter deciding on a stale cache returns a result no sequential order explains
     groups.eyeball_close_and_wake(ctx)
 
 
